@@ -114,7 +114,12 @@ def run_case(a):
                     pass
         st["foreign_planted"] = len(planted)
         preexisting = {p for p in planted}
-        path = rnd.choice(["cli", "cli-rel", "cli-rel-deep", "build", "build-member", "init", "cli-config", "init-custom", "init-dotslash", "cli-flags-over-config", "cli-flags-over-config"])
+        path = rnd.choice(["cli", "cli-rel", "cli-rel-deep", "build", "build-member", "init", "cli-config", "init-custom", "init-dotslash", "cli-flags-over-config", "cli-flags-over-config",
+                           "init-backend"])
+        if path == "init-backend":
+            # the Rust project lives in ./backend (not ./src-tauri), with its tauri.conf.json next to it: init is pointed there with -p
+            common.write_tree(os.path.join(root, "app/backend"), compound.render(files))
+            json.dump({"productName": "backend", "plugins": {"shell": {"open": True}}}, open(os.path.join(root, "app/backend/tauri.conf.json"), "w"))
         if path == "build-member":
             # the build script of a workspace member: its working directory has no tauri.conf.json of its own, the one that is found
             # belongs to an ancestor; the settings' relative paths are relative to the working directory. The directory that the same
@@ -175,6 +180,9 @@ def run_case(a):
                 if not os.path.exists(os.path.join(root, cfgrel)):
                     json.dump({"productName": "x", "build": {"frontendDist": "../dist"}, "plugins": {"shell": {"open": True}}}, open(os.path.join(root, cfgrel), "w"))
                 argv = [cli, "tauri-typegen", "init", "-p", os.path.relpath(src, cwd), "-g", os.path.relpath(os.path.join(root, outrel), cwd), "-v", mode]
+            elif path == "init-backend":
+                cfgrel = "app/backend/tauri.conf.json"
+                argv = [cli, "tauri-typegen", "init", "-p", "./backend", "-g", os.path.relpath(os.path.join(root, outrel), cwd), "-v", mode]
             elif path == "init-dotslash":
                 # init pointed, with an explicit ./, at the tauri.conf.json of the working directory while the project directory has
                 # one of its own: only the one it was pointed at may change
@@ -220,7 +228,7 @@ def run_case(a):
                 for rel in d[kind]:
                     if path in ("build", "build-member") and rel == "app/tauri.conf.json":
                         continue   # written by the harness itself before the run (outside the snapshot window) — never by the tool
-                    if allowed(rel, outrel, cfgrel if path in ("init", "init-custom", "init-dotslash") else None, preexisting):
+                    if allowed(rel, outrel, cfgrel if path in ("init", "init-custom", "init-dotslash", "init-backend") else None, preexisting):
                         continue
                     viol.append(("C16 %s %s path=%s" % (kind, classify(rel, outnorm, srcrel), path.split("-")[0]),
                                  "%s: %s %s (layout %s, output %s)" % (label, kind, rel, layout, outrel), dict(wit, step=step)))
@@ -233,7 +241,7 @@ def run_case(a):
                     if not p or not p.startswith(root + os.sep):
                         continue
                     rel = os.path.relpath(p, root)
-                    if allowed(rel, outrel, cfgrel if path in ("init", "init-custom", "init-dotslash") else None, preexisting):
+                    if allowed(rel, outrel, cfgrel if path in ("init", "init-custom", "init-dotslash", "init-backend") else None, preexisting):
                         continue
                     if "O_CREAT" not in e["flags"] and e["call"] in ("openat", "open") and "O_WRONLY" not in e["flags"] and "O_RDWR" not in e["flags"] and "O_TRUNC" not in e["flags"]:
                         continue
